@@ -59,6 +59,9 @@ OBLIGATIONS = [
     # weighted values (State/StateWExec.v): node functions that compute the WEIGHT of a WeightedTensor from their inputs; mix = _select
     # = row-wise selection of value AND weight
     "C01_weighted_select_rows", "C01_F_mix_weighted", "C01_never_stale_weighted", "C01_weighted_examples",
+    # n-d values (State/StateNdExec.v): trailing shapes, both alignments of revert(subset), F_mix PROVED for multi-parent entry-wise
+    # functions of plain and of weighted parents
+    "C01_F_mix_nd", "C01_never_stale_nd", "C01_nd_examples",
 ]
 
 # The model variant the theorems of Props/C01.v are about (State/StateNow.v): True = State.__setitem__ as it is since 27ac519
